@@ -684,6 +684,12 @@ func padComment(str string, pads ...string) string {
 	if len(pads) > 0 {
 		pad = strings.Join(pads, "")
 	}
+	for i, line := range lines {
+		// "// +build …" is a build constraint wherever it stands: gofmt moves it to the top of the file
+		if strings.HasPrefix(line, "+build") {
+			lines[i] = "[+]" + strings.TrimPrefix(line, "+")
+		}
+	}
 	return (strings.Join(lines, "\n//"+pad))
 }
 
